@@ -473,6 +473,26 @@ def check_enumeration(res, T, O):
         O['ok'] += 1
     else:
         res.violation('C18', 'C18|valid_registers|set', f, f.line, 'CpuContext::valid_registers does not enumerate REGISTERS for both kinds of validity: %s (names taken from the validity set itself may be aliases, and come in hash order)' % [(v, xs) for v, xs, ln in aggs])
+    # ... and the choice between the two is the validity itself: the plain slice walk for `All` only, the filtered walk
+    # for every `Some(_)` (a set may have as many entries as there are registers without naming each of them: aliases,
+    # names of no register)
+    import normal
+    O['n'] += 1
+    vadt = c.adts.get('minidump::context::MinidumpContextValidity')
+    if vadt is None:
+        res.error('C18', 'enum MinidumpContextValidity not found')
+    else:
+        where = {}
+        for b in sorted(f.reach):
+            for s_ in f.blocks[b]['s']:
+                if s_['k'] == 'assign' and s_['rv']['k'] == 'agg' and s_['rv'].get('ak') == 'adt' and s_['rv']['adt'].endswith('CpuRegistersInner'):
+                    where.setdefault(s_['rv'].get('variant'), []).append(b)
+        is_valid = lambda x: isinstance(x, tuple) and len(x) == 3 and x[0] == 'var' and x[2] == 2
+        got = dict((k, normal.variants_reaching(f, vadt, is_valid, bs)[0]) for k, bs in where.items())
+        if got.get('Slice') == {'All'} and got.get('Valid') == {'Some'} and set(got) == {'Slice', 'Valid'}:
+            O['ok'] += 1
+        else:
+            res.violation('C18', 'C18|valid_registers|choice', f, f.line, 'CpuContext::valid_registers must walk the plain REGISTERS slice for All only and filter by register_is_valid for every Some(_); the iterator kinds are built for %s' % dict((k, sorted(v)) for k, v in got.items()))
     g = nx[0]
     ok2 = False
     for b, t in g.calls():
